@@ -346,24 +346,35 @@ def main():
 
     kip_order = route("parse_kip", r"\bvalidate_command\s*\(\s*&\s*\w+\s*\)\s*\?", "validate_command")
     kml_order = route("parse_kml", r"\bkml\s*::\s*validate_plan\s*\(\s*&\s*\w+\s*\)\s*\?", "validate_plan")
-    # validate_command: which validator each arm calls
+    # validate_command: which validator a KML statement / an EXPORT CAPSULE selection is handed to
+    # (looked for in validate_command and in the parser.rs helpers it calls, one level deep)
     vc = fn_body(parser_rs, "validate_command", "parser.rs")
+    texts = [("validate_command", vc)]
+    for callee in sorted(set(re.findall(r"(?<![:\w.])([a-z_]\w*)\s*\(", vc))):
+        if callee != "validate_command" and len(re.findall(r"\bfn\s+" + re.escape(callee) + r"\s*(<[^>]*>)?\s*\(", parser_rs)) == 1:
+            texts.append((callee, fn_body(parser_rs, callee, "parser.rs")))
     arms = []
-    m = re.search(r"Command\s*::\s*Kml\s*\(\s*\w+\s*\)\s*=>\s*kml\s*::\s*(\w+)\s*\(", vc)
+    m = re.search(r"Command\s*::\s*Kml\s*\(\s*(\w+)\s*\)", vc)
     if not m:
-        die("validate_command: the Kml arm no longer calls a kml:: validator directly")
-    arms.append(("Kml", m.group(1)))
-    m = re.search(r"Command\s*::\s*Meta\s*\(\s*MetaCommand\s*::\s*ExportCapsule\s*\(\s*(\w+)\s*\)\s*\)\s*=>\s*\{", vc)
-    if not m:
-        die("validate_command: the Meta(ExportCapsule) arm is gone")
-    eb = vc[m.end() - 1:matching(vc, m.end() - 1, "{", "}")]
-    ev = m.group(1)
-    steps = []
-    i1 = re.search(re.escape(ev) + r"\s*\.\s*where_clauses\s*\.\s*is_empty\s*\(\s*\)", eb)
-    i2 = re.search(r"kml\s*::\s*(\w+)\s*\(\s*&\s*" + re.escape(ev) + r"\s*\.\s*where_clauses\s*\)", eb)
-    if not i1 or not i2 or "Err" not in eb[i1.end():i2.start()]:
-        die("validate_command: ExportCapsule no longer refuses an empty selection before validating it")
-    arms.append(("Meta::ExportCapsule", "nonempty+" + i2.group(1)))
+        die("validate_command: no Command::Kml pattern")
+    k = re.search(r"kml\s*::\s*(\w+)\s*\(\s*&?\s*" + re.escape(m.group(1)) + r"\s*\)", vc)
+    if not k:
+        die("validate_command: the KML statement is no longer handed to a kml:: validator")
+    arms.append(("Kml", k.group(1)))
+    if not re.search(r"MetaCommand\s*::\s*ExportCapsule\s*\(", vc):
+        die("validate_command: no MetaCommand::ExportCapsule pattern")
+    found = None
+    for name, body in texts:
+        e = re.search(r"kml\s*::\s*(validate_\w+)\s*\(", body if name != "validate_command" else re.sub(r"kml\s*::\s*" + re.escape(k.group(1)) + r"\s*\(", "(", body))
+        if e:
+            if not re.search(r"\.\s*is_empty\s*\(\s*\)", body) or "Err" not in body:
+                die(f"{name}: the EXPORT CAPSULE selection is validated without refusing an empty one")
+            if found:
+                die("validate_command: the EXPORT CAPSULE selection is validated in two places")
+            found = e.group(1)
+    if not found:
+        die("validate_command: the EXPORT CAPSULE selection is no longer validated")
+    arms.append(("Meta::ExportCapsule", "nonempty+" + found))
 
     # the request route: Operation::parse hands text to parse_kip and a pre-parsed `ast` to validate_command
     # before it is cloned out
@@ -372,19 +383,18 @@ def main():
         die("request.rs: impl Operation not found")
     op_body = request_rs[impl_op.end():matching(request_rs, impl_op.end() - 1, "{", "}")]
     pb = fn_body(op_body, "parse", "impl Operation")
-    m_text = re.search(r"\(\s*Some\s*\(\s*(\w+)\s*\)\s*,\s*_\s*\)\s*=>\s*parse_kip\s*\(\s*(\w+)\s*\)\s*\?", pb)
-    if not m_text or m_text.group(1) != m_text.group(2):
-        die("Operation::parse: the `command` arm no longer is `parse_kip(text)?`")
-    m_ast = re.search(r"\(\s*None\s*,\s*Some\s*\(\s*(\w+)\s*\)\s*\)\s*=>\s*\{", pb)
-    if not m_ast:
-        die("Operation::parse: the `ast` arm is gone")
-    ab = pb[m_ast.end() - 1:matching(pb, m_ast.end() - 1, "{", "}")]
-    av = m_ast.group(1)
-    v = list(re.finditer(r"\bvalidate_command\s*\(\s*" + re.escape(av) + r"\s*\)\s*\?", ab))
-    c = list(re.finditer(r"\b" + re.escape(av) + r"\s*\.\s*clone\s*\(\s*\)", ab))
-    if len(v) != 1 or len(c) != 1:
-        die("Operation::parse: the `ast` arm no longer has exactly one `validate_command(ast)?` and one `ast.clone()`")
-    ast_order = [n for _, n in sorted([(v[0].start(), "validate_command"), (c[0].start(), "return")])]
+    if len(re.findall(r"\bparse_kip\s*\(", pb)) != 1:
+        die("Operation::parse: the `command` text no longer goes through exactly one parse_kip call")
+    v = list(re.finditer(r"\bvalidate_command\s*\(\s*&?\s*(\w+)\s*\)\s*\?", pb))
+    if len(v) != 1:
+        die("Operation::parse: expected exactly one `validate_command(ast)?`")
+    av = v[0].group(1)
+    uses = [m.start() for m in re.finditer(r"\b" + re.escape(av) + r"\s*\.\s*clone\s*\(\s*\)", pb)]
+    if not uses:
+        die("Operation::parse: the validated `ast` no longer leaves through a clone")
+    if min(uses) < v[0].start():
+        die("Operation::parse: the pre-parsed `ast` is cloned out before validate_command ran")
+    ast_order = ["validate_command", "return"]
 
     L = []
     L.append("/-")
